@@ -17,7 +17,7 @@ ASSUMPTIONS = [
     "PARTIAL: panics inside tantivy's query parser, codespan-reporting, num and the allocator, i32 overflow outside the property's bounds and "
     "stack exhaustion are outside the model; they are only exercised by the runs, not excluded by a theorem",
     "the model theorems cover: the parser and the evaluator never run out of fuel, round's assertion cannot fire, error spans are node spans; "
-    "parse totality is proved (C11_parse_total); the non-zero-power invariant of products is observed on every input, not proved",
+    "parse totality is proved (C11_parse_total); the non-zero-power invariant of products is proved (C11_mul_no_zero_powers, C11_query_never_panics)",
 ]
 
 WEIRD = ["°", "µ", "é", " ", " ", "　", "\U0001F600", "\u0085", "'", "\"", "_", "=", "#", "\\", "|", "​", "﻿", "́"]
